@@ -475,6 +475,35 @@ def clause_g(repo, chk):
         chk.violation("G-unbound", fn.key, "returned", "remove_bound() returns %r instead of the removed bounds (callers restore them after the fit)" % (ret,), file=VAR, line=fn.lineno)
 
 
+def clause_setbound(repo, chk):
+    """set_bound installs the requested range, also over an existing one (shared with C08: every fit driver calls it)"""
+    import sympy as sp
+
+    from ..sym import SelfObj, Translator, Unmodelled
+    chk.rule("G-bound", "set_bound({name: (lo, hi)}), interpreted on a manager that already holds a bound for one of the names, for overwrite False and True: afterwards bnd_dic[name] is the Bound built from the requested (lo, hi) for every name, untouched for others (a stale range would be used by every later fit)")
+    vm = repo.cls("%s::VarsManager" % VAR)
+    fn = vm.methods.get("set_bound")
+    bcls = repo.cls("%s::Bound" % VAR)
+    if fn is None:
+        raise AnalysisError("anchor vanished: VarsManager.set_bound")
+    lo1, hi1, lo2, hi2 = sp.symbols("lo1 hi1 lo2 hi2", real=True)
+    for overwrite in (False, True):
+        so = SelfObj(vm, {"variables": {"a": sp.Symbol("Va"), "b": sp.Symbol("Vb"), "c": sp.Symbol("Vc")}, "bnd_dic": {"a": ("Bound", "old-a"), "c": ("Bound", "old-c")}, "same_list": [["b", "c"]], "trainable_vars": ["a", "b"]})
+        hooks = {bcls.key: lambda tr_, a_, k_, n_: ("Bound", tuple(a_[:2])), "allow_attr_store": True, vm.methods["get"].key: lambda tr_, a_, k_, n_: sp.Symbol("value")}
+        tr = Translator(repo, hooks=hooks, max_depth=2)
+        try:
+            tr.call_fn(fn, [{"a": (lo1, hi1), "b": (lo2, hi2)}], {"overwrite": overwrite}, self_obj=so)
+        except Unmodelled as e:
+            raise AnalysisError("VarsManager.set_bound not interpretable on the small manager: %s" % e)
+        got = so.attrs["bnd_dic"]
+        want = {"a": ("Bound", (lo1, hi1)), "b": ("Bound", (lo2, hi2)), "c": ("Bound", "old-c")}
+        ok = got == want
+        chk.oblige("G-bound", "set_bound({a: (lo1, hi1), b: (lo2, hi2)}, overwrite=%s) with an old bound on a: a and b carry the requested ranges, c keeps its own" % overwrite, ok)
+        if not ok:
+            stale = [k for k in ("a", "b") if got.get(k) != want[k]]
+            chk.violation("G-bound", fn.key, "installed:overwrite=%s" % overwrite, "after set_bound(..., overwrite=%s) the bound table is %s: %s do(es) not carry the requested range - a fit that asks for a new range keeps fitting inside the old one and can return a point outside the requested bounds" % (overwrite, got, stale or sorted(set(got) ^ set(want))), file=VAR, line=fn.lineno)
+
+
 def clause_h(repo, chk):
     """set_same: one shared variable, one group, and the group is free only if every part was free"""
     import sympy as sp
@@ -537,4 +566,5 @@ def run(repo, chk, tier):
     clause_e(repo, chk)
     clause_f(repo, chk)
     clause_g(repo, chk)
+    clause_setbound(repo, chk)
     clause_h(repo, chk)
